@@ -138,14 +138,17 @@ PROPS.update({
                "checks the bound after each single diff of both stream flavours."),
         technique="Lean 4 proof (bounded-run predicate by case analysis and induction over replicate/map runs) + model/implementation correspondence",
         design_ref="DESIGN.md §6 C15"),
-    "C11": dict(adp_prop(["EyeballVerif.Props.C11", "EyeballVerif.Lemmas.Bsearch"],
-        "bsearch_spec (imbl's binary_search_by loop meets its specification on a list ordered w.r.t. the probe); sort_insertAt_emits / sort_removeAt_emits (the three-way emission of the "
-        "PushFront/PushBack/Insert and PopFront/PopBack/Remove arms turns the old sorted view into the new one); sort_truncate_counterexample (known finding D4: kernel-checked refutation of the full statement)"),
-        claim=("Lean 4: the full per-diff refinement statement sort_handle_full (SInv: the buffered vector is the source tagged with positions, sorted) is REFUTED in the kernel for the Truncate arm "
-               "(sort_truncate_counterexample — known finding D4, not repairable without changing three pinned tests); proved so far: imbl's binary search loop meets its specification for every probe "
-               "and list (bsearch_spec, unbounded, by strong induction) and the insertion/removal emission lemmas for every buffer and position. The remaining arms are tied to the code by the exhaustive "
-               "differential run (every source over an alphabet with ties x 4 comparators x every operation) and the implementation-side sorted-permutation oracle; partial."),
-        technique="Lean 4 proof (partial: binary-search spec, emission lemmas, kernel-checked counterexample for the known finding) + model/implementation correspondence",
+    "C11": dict(adp_prop(["EyeballVerif.Props.C11", "EyeballVerif.Props.C11Sort", "EyeballVerif.Lemmas.SortInv", "EyeballVerif.Lemmas.Bsearch"],
+        "sort_handle_sound: for every lawful comparator (total preorder), every sort function meeting the sort specification, every source, buffer and valid diff that is not a shortening Truncate: the arm does not "
+        "panic, the emitted diffs replayed strictly on the old sorted view give the new one, and the new buffer is a sorted permutation of the position-tagged new source (SInvP; sinvP_sinv: every position exactly once "
+        "with its item); sort_run_sound: the same over whole histories from SortImpl::new on (induction); bsearch_spec (imbl's binary_search_by loop, strong induction); appendLoop_spec (the Append arm's loop, induction); "
+        "stableSort_spec / lawful_nat (the hypotheses are satisfiable); sort_truncate_counterexample (known finding D4: kernel-checked refutation of the statement for the Truncate arm)"),
+        claim=("Lean 4 theorems sort_handle_sound and sort_run_sound: for every total-preorder comparator and every sort function that returns a sorted permutation, every arm of "
+               "handle_diff_and_update_buffered_vector except a shortening Truncate keeps 'the buffer is a sorted permutation of the source tagged with positions' and emits diffs that take the old sorted view to the new "
+               "one, strictly applicable — over whole histories by induction, including imbl's binary search loop (bsearch_spec) and the Append arm's insertion loop (appendLoop_spec). For the Truncate arm the statement "
+               "is REFUTED in the kernel (sort_truncate_counterexample — known finding D4, the arm forwards Truncate to the sorted view; not repairable without changing three pinned tests). Tied to the code by the exhaustive "
+               "differential run (every source over an alphabet with ties x 4 comparators x every operation) and the implementation-side sorted-permutation oracle."),
+        technique="Lean 4 proof (invariant by induction over histories, one lemma per arm, loop invariants for binary search and the Append loop; kernel-checked counterexample for the known finding) + model/implementation correspondence",
         design_ref="DESIGN.md §6 C11"),
     "C12": dict(adp_prop(["EyeballVerif.Props.C12"],
         "c12_initial_values / c12_initial_chain: for every stage kind, initial contents and chain of any length, the initial values handed on are the composition of the stage views (the repaired D5); "
